@@ -27,14 +27,17 @@ TIMEOUT = {"quick": 600, "thorough": 3000}
 
 
 def thresholds(tier):
-  return {"events.quantized_bits": 100, "events.quantized_linear": 100,
+  return {"live.pytest_runs": 1, "live.elements": 30,
+          "events.quantized_bits": 100, "events.quantized_linear": 100,
           "events.quantized_relu": 100, "events.quantized_tanh": 20,
           "events.quantized_sigmoid": 20, "range_checked": 20,
           "minmax_checked": 500, "distinct_nontrivial": 50000}
 
 
 def cases(tier, seed, keras3=False):
-  return lattice.fixed_configs(tier, seed, keras3=keras3)
+  from vf import live
+  # the repository's own tests as a workload for the membership monitor come first (long cases)
+  return live.cases(tier, "fixed", keras3) + list(lattice.fixed_configs(tier, seed, keras3=keras3))
 
 
 def variant(cfg, fmt):
@@ -85,6 +88,9 @@ def check_membership(ctx, cfg, fmt, x, y, base, tag):
 
 
 def run_case(cfg, ctx):
+  if isinstance(cfg, dict) and cfg.get("part") == "live":
+    from vf import live
+    return live.run(cfg, ctx)
   from vf import qenv
   fmt = fixed.make(cfg)
   cls = cfg["cls"]
@@ -94,6 +100,8 @@ def run_case(cfg, ctx):
     ok, q = ctx.call(base, qenv.build, cfg)
     if not ok:
       return
+    if cfg.get("route"):
+      ctx.count("route." + cfg["route"])
     rng = np.random.default_rng(cfg["seed"] * 7919 + cfg["idx"])
     maxc = 4096 if ctx.tier == "quick" else 70000
     x = fixed.probes(fmt, rng=rng, max_codes=maxc)
